@@ -2,24 +2,53 @@
 
 // Package wiring runs the real main() of one of the snowflake binaries inside a test binary up to the point
 // where it has configured the standard logger, then writes probe lines containing addresses through the
-// standard logger and reports what every sink (the process's stderr, the -log file) received.  Used by C07
+// standard logger and reports what every sink (the process's stderr and stdout, the -log file) received.  Used by C07
 // (lib/checks/c07.py: every log sink sits behind the LogScrubber unless -unsafe-logging).
+//
+// Log sinks other than the standard logger: a main that serves HTTP with an http.Server of its own on
+// http.DefaultServeMux (broker, probetest) is run until it listens; the helper has registered a handler on the
+// default mux that (a) looks at the *http.Server the request arrived on (http.ServerContextKey) and, when it has an
+// ErrorLog of its own, prints the probe lines through it, and (b) panics with an address-bearing value, so that
+// net/http itself writes "http: panic serving <peer>: <value>" to the server's error log.  With a certificate
+// (VERIF_WIRING_HTTP=tls) plain HTTP is also spoken to the TLS port three times: net/http writes
+// "http: TLS handshake error from <peer>: ...".  The peers' addresses are reported so that the check can look for them.
 //
 // Environment:  VERIF_WIRING_ARGS  JSON array: the command line of the binary
 //
 //	VERIF_WIRING_LOG   path of the file given to -log ("" = none); read back after the probes
 //	VERIF_WIRING_PROBES JSON array of the probe lines
+//	VERIF_WIRING_HTTP  "" | "plain" | "tls": the argument "127.0.0.1:0" is replaced by a free port; for "tls" the
+//	                   argument "-disable-tls" is replaced by "-cert <file> -key <file>" (self-signed, made here)
+//	VERIF_WIRING_PANIC the value the handler panics with
 //
-// Output on the real stdout:  @@wiring stderr=<hex> logfile=<hex|->  (anything else on stdout is the binary's own)
+// Output on the real stdout:
+//
+//	@@wiring stderr=<hex> stdout=<hex> logfile=<hex|-> peers=<addr,addr,..|-> errorlog=<nil|set|unknown>
+//
+// (anything else on stdout is the binary's own)
 package wiring
 
 import (
+	"bytes"
+	"crypto/ecdsa"
+	"crypto/elliptic"
+	"crypto/rand"
+	"crypto/tls"
+	"crypto/x509"
+	"crypto/x509/pkix"
 	"encoding/hex"
 	"encoding/json"
+	"encoding/pem"
 	"fmt"
+	"io"
 	"log"
+	"math/big"
+	"net"
+	"net/http"
 	"os"
 	"path/filepath"
+	"strings"
+	"sync"
 	"time"
 )
 
@@ -28,6 +57,36 @@ func hexOrDash(b []byte) string {
 		return "-"
 	}
 	return hex.EncodeToString(b)
+}
+
+func selfSigned(dir string) (string, string, error) {
+	key, err := ecdsa.GenerateKey(elliptic.P256(), rand.Reader)
+	if err != nil {
+		return "", "", err
+	}
+	tmpl := &x509.Certificate{
+		SerialNumber: big.NewInt(1),
+		Subject:      pkix.Name{CommonName: "wiring.test"},
+		NotBefore:    time.Now().Add(-time.Hour),
+		NotAfter:     time.Now().Add(24 * time.Hour),
+		DNSNames:     []string{"wiring.test"},
+	}
+	der, err := x509.CreateCertificate(rand.Reader, tmpl, tmpl, &key.PublicKey, key)
+	if err != nil {
+		return "", "", err
+	}
+	keyDER, err := x509.MarshalECPrivateKey(key)
+	if err != nil {
+		return "", "", err
+	}
+	cf, kf := filepath.Join(dir, "cert.pem"), filepath.Join(dir, "key.pem")
+	if err := os.WriteFile(cf, pem.EncodeToMemory(&pem.Block{Type: "CERTIFICATE", Bytes: der}), 0600); err != nil {
+		return "", "", err
+	}
+	if err := os.WriteFile(kf, pem.EncodeToMemory(&pem.Block{Type: "EC PRIVATE KEY", Bytes: keyDER}), 0600); err != nil {
+		return "", "", err
+	}
+	return cf, kf, nil
 }
 
 // Run never returns: it exits the process once the sinks have been read.
@@ -44,16 +103,73 @@ func Run(mainFn func()) {
 	if err := json.Unmarshal([]byte(os.Getenv("VERIF_WIRING_PROBES")), &probes); err != nil {
 		fail("bad VERIF_WIRING_PROBES")
 	}
+	mode := os.Getenv("VERIF_WIRING_HTTP")
+	panicValue := os.Getenv("VERIF_WIRING_PANIC")
 	dir, err := os.MkdirTemp("", "verif-wiring")
 	if err != nil {
 		fail(err.Error())
 	}
-	errPath := filepath.Join(dir, "stderr")
-	errFile, err := os.Create(errPath)
+	paths := map[string]string{"stderr": filepath.Join(dir, "stderr"), "stdout": filepath.Join(dir, "stdout")}
+	errFile, err := os.Create(paths["stderr"])
 	if err != nil {
 		fail(err.Error())
 	}
-	os.Stderr = errFile // main() reads os.Stderr when it builds its log output
+	outFile, err := os.Create(paths["stdout"])
+	if err != nil {
+		fail(err.Error())
+	}
+	if p := os.Getenv("VERIF_WIRING_LOG"); p != "" {
+		paths["logfile"] = p
+	}
+
+	listenAddr := ""
+	var mu sync.Mutex
+	errorLog := "unknown"
+	if mode != "" {
+		l, err := net.Listen("tcp", "127.0.0.1:0")
+		if err != nil {
+			fail(err.Error())
+		}
+		listenAddr = l.Addr().String()
+		l.Close()
+		var nargs []string
+		for _, a := range args {
+			switch {
+			case a == "127.0.0.1:0":
+				nargs = append(nargs, listenAddr)
+			case a == "-disable-tls" && mode == "tls":
+				cf, kf, err := selfSigned(dir)
+				if err != nil {
+					fail(err.Error())
+				}
+				nargs = append(nargs, "-cert", cf, "-key", kf)
+			default:
+				nargs = append(nargs, a)
+			}
+		}
+		args = nargs
+		http.HandleFunc("/zz-verif-c07/panic", func(w http.ResponseWriter, r *http.Request) {
+			srv, _ := r.Context().Value(http.ServerContextKey).(*http.Server)
+			mu.Lock()
+			if srv == nil {
+				errorLog = "unknown"
+			} else if srv.ErrorLog == nil {
+				errorLog = "nil"
+			} else {
+				errorLog = "set"
+			}
+			mu.Unlock()
+			if srv != nil && srv.ErrorLog != nil {
+				for _, p := range probes {
+					srv.ErrorLog.Print(strings.Replace(p, "probe-c07 ", "probe-c07-errorlog ", 1))
+				}
+			}
+			panic(panicValue)
+		})
+	}
+
+	os.Stderr = errFile // main() reads os.Stderr / os.Stdout when it builds its log outputs
+	os.Stdout = outFile
 	os.Args = append([]string{"verif-wiring"}, args...)
 	before := log.Writer()
 	go mainFn()
@@ -67,13 +183,93 @@ func Run(mainFn func()) {
 	for _, p := range probes {
 		log.Print(p)
 	}
-	errFile.Sync()
-	se, _ := os.ReadFile(errPath)
-	var lf []byte
-	if p := os.Getenv("VERIF_WIRING_LOG"); p != "" {
-		lf, _ = os.ReadFile(p)
+
+	readAll := func() map[string][]byte {
+		res := map[string][]byte{}
+		for k, p := range paths {
+			res[k], _ = os.ReadFile(p)
+		}
+		return res
 	}
-	fmt.Fprintf(out, "\n@@wiring stderr=%s logfile=%s\n", hexOrDash(se), hexOrDash(lf))
+	var peers []string
+	if mode != "" {
+		// wait for the listener
+		var conn net.Conn
+		deadline = time.Now().Add(60 * time.Second)
+		for {
+			conn, err = net.Dial("tcp", listenAddr)
+			if err == nil {
+				break
+			}
+			if time.Now().After(deadline) {
+				fail("main() did not listen on " + listenAddr + " within 60 s: " + err.Error())
+			}
+			time.Sleep(5 * time.Millisecond)
+		}
+		conn.Close()
+		want := map[string]int{"panic serving": 1}
+		// (b) the handler panic, over the protocol the server speaks
+		request := func(c net.Conn) {
+			peers = append(peers, c.LocalAddr().String())
+			c.SetDeadline(time.Now().Add(20 * time.Second))
+			fmt.Fprintf(c, "GET /zz-verif-c07/panic HTTP/1.0\r\nHost: wiring.test\r\n\r\n")
+			io.Copy(io.Discard, c)
+			c.Close()
+		}
+		if mode == "tls" {
+			c, err := tls.Dial("tcp", listenAddr, &tls.Config{InsecureSkipVerify: true, ServerName: "wiring.test"})
+			if err != nil {
+				fail("TLS dial: " + err.Error())
+			}
+			request(c)
+			// plain HTTP to the TLS port: the handshake fails on the server's side
+			for i := 0; i < 3; i++ {
+				c, err := net.Dial("tcp", listenAddr)
+				if err != nil {
+					fail("dial: " + err.Error())
+				}
+				request(c)
+			}
+			want["TLS handshake error"] = 3
+		} else {
+			c, err := net.Dial("tcp", listenAddr)
+			if err != nil {
+				fail("dial: " + err.Error())
+			}
+			request(c)
+		}
+		// until the server's error log has arrived in some observed sink (generous deadline, no fixed sleep)
+		deadline = time.Now().Add(20 * time.Second)
+		for {
+			got := readAll()
+			ok := true
+			for marker, n := range want {
+				c := 0
+				for _, b := range got {
+					c += bytes.Count(b, []byte(marker))
+				}
+				if c < n {
+					ok = false
+				}
+			}
+			if ok || time.Now().After(deadline) {
+				break
+			}
+			time.Sleep(5 * time.Millisecond)
+		}
+	}
+	errFile.Sync()
+	outFile.Sync()
+	got := readAll()
+	mu.Lock()
+	el := errorLog
+	mu.Unlock()
+	ps := "-"
+	if len(peers) > 0 {
+		ps = strings.Join(peers, ",")
+	}
+	fmt.Fprintf(out, "\n@@wiring stderr=%s stdout=%s logfile=%s peers=%s errorlog=%s\n",
+		hexOrDash(got["stderr"]), hexOrDash(got["stdout"]), hexOrDash(got["logfile"]), ps, el)
 	os.RemoveAll(dir)
 	os.Exit(0)
 }
